@@ -799,6 +799,8 @@ def do_check(pid, cfg, tier, seed, ws, injected, args, t0):
             suffix = " no-failing-input-found"
         else:
             rp["module"] = r["full"].split("::")[-2]
+            if r["harness"] not in pb_cache and len(pb_cache) >= int(os.environ.get("VERIF_MAX_PLAYBACK", "3")):
+                pb_cache[r["harness"]] = {"native": "playback-skipped (more than %s failing harnesses; the first ones are replayed)" % os.environ.get("VERIF_MAX_PLAYBACK", "3"), "tests": []}
             if r["harness"] not in pb_cache:
                 try:
                     pb_cache[r["harness"]] = playback(ws, g, r, pid)
